@@ -64,6 +64,9 @@ pub enum WPlan {
     Mix,
     /// four probe starts half a table apart
     Four,
+    /// every key starts at the last bucket of the table, whatever its size (probe windows wrap around the end of
+    /// the control bytes; the first stored elements are found through the mirrored trailing bytes); five tags
+    End,
 }
 impl WPlan {
     pub fn hash(self, t: u64) -> u64 {
@@ -73,6 +76,7 @@ impl WPlan {
             WPlan::Stride => t * hashbrown::verif::GROUP_WIDTH as u64,
             WPlan::Mix => t.wrapping_mul(0x9E37_79B9_7F4A_7C15),
             WPlan::Four => (t % 4) * 0x100 + ((t % 3) << 57),
+            WPlan::End => ((1u64 << 57) - 1) | ((t % 5) << 57),
         }
     }
 }
@@ -383,7 +387,7 @@ pub fn cases(tier: Tier) -> Vec<WCase> {
     let w = hashbrown::verif::GROUP_WIDTH;
     // live sizes: just below / above the capacities 7/8 * 2^k of 256 .. 2048 buckets, and one far from any
     let ns: Vec<usize> = if q { vec![100, 449, 40 * w] } else { vec![57, 100, 224, 225, 448, 449, 40 * w, 897, 1500] };
-    let plans = [WPlan::Zero, WPlan::Seq, WPlan::Stride, WPlan::Mix, WPlan::Four];
+    let plans = [WPlan::Zero, WPlan::Seq, WPlan::Stride, WPlan::Mix, WPlan::Four, WPlan::End];
     let patterns = [Pattern::Fifo, Pattern::Lifo, Pattern::Saw, Pattern::Flush, Pattern::Mixed, Pattern::FifoShrink];
     let apis = [Api::Map, Api::MapEntry, Api::TableUnique, Api::TableEntry];
     let mut v = Vec::new();
